@@ -28,7 +28,7 @@ def describe(rep):
         'all_to_done iteration counts, iteration budget) are asserted on the real objects.'
     )
     rep.rule = ('one state = one explored execution path (a maximal set of residual/maxiter/flag values steering the controller identically); '
-                'transitions = branch decisions taken; every path is an execution of the real implementation')
+                'transitions = branch decisions taken; every path is an execution of the real implementation; configurations include blocks shorter than the number of processes and steps that cannot be copied (built one by one)')
     rep.assume('probe sweeper = real generic_implicit on testequation0d (float data); only the residual reported at IT_CHECK is symbolic',
                'single block (Tend = num_procs*dt); multi-block behaviour is covered by C06/C09',
                'residuals >= 0')
